@@ -65,9 +65,13 @@ Output(e) ==
              ELSE outs
   /\ UNCHANGED <<inv, known, scores>>
 
+\* a comparison of two states with the ordering the reduction uses (Ord / PartialOrd / PartialEq
+\* of the state types); nothing of the pipeline state changes
+Cmp(e) == e.ev = "cmp" /\ UNCHANGED <<inv, known, outs, scores, out>>
+
 Next == /\ l < Len(Log)
         /\ l' = l + 1
-        /\ LET e == Log[l + 1] IN Invoke(e) \/ Replica(e) \/ Output(e)
+        /\ LET e == Log[l + 1] IN Invoke(e) \/ Replica(e) \/ Output(e) \/ Cmp(e)
 Spec == Init /\ [][Next]_vars
 
 -----------------------------------------------------------------------------
@@ -109,6 +113,17 @@ C10MonoStep == (IsStep("output") /\ NextEv.code = 0) =>
                      /\ (n < inv.reps => outs[n].written <= NextEv.written)
                      /\ (n > inv.reps => outs[n].written >= NextEv.written)
 C10Monotone == [][C10MonoStep]_vars
+
+\* The reduction of Pipeline.tla assumes that states are ordered as their scores are (a total
+\* preorder: the winner is then independent of the reduction tree).  Recorded comparisons of real
+\* states, scores given as ranks: `ord` is the result of cmp (-1, 0, 1), `eq` of ==, `maxb` tells
+\* whether max(a, b) returned b.
+Sign(x) == IF x < 0 THEN -1 ELSE IF x > 0 THEN 1 ELSE 0
+C10CmpStep == IsStep("cmp") =>
+                 /\ NextEv.ord = Sign(NextEv.a - NextEv.b)
+                 /\ NextEv.eq = (NextEv.a = NextEv.b)
+                 /\ NextEv.maxb = (NextEv.b >= NextEv.a)
+C10Cmp == [][C10CmpStep]_vars
 
 \* C20, CLI clause
 C20CliStep == IsStep("output") =>
